@@ -22,12 +22,60 @@ type FuncResult struct {
 	Lines   []string
 	Checks  []string
 	NInstr  int
+	DroppedAuto []string
 }
 
 // verifyFunc generates all obligations of one function under contract.
 func (L *Loader) verifyFunc(fn *ssa.Function, spec *FuncSpec) (res *FuncResult) {
+	return L.verifyFuncAuto(fn, spec, nil)
+}
+
+// verifyFuncHoudini: generate, discharge the inferred-invariant obligations, drop the
+// candidates that are not inductive, regenerate; returns the final obligation set.
+func (L *Loader) verifyFuncHoudini(fn *ssa.Function, spec *FuncSpec, opt *solveOpts) *FuncResult {
+	disabled := map[string]bool{}
+	for round := 0; round < 8; round++ {
+		r := L.verifyFuncAuto(fn, spec, disabled)
+		var auto []*Obligation
+		for _, o := range r.Obls {
+			if strings.HasPrefix(o.Kind, "auto-inv") {
+				auto = append(auto, o)
+			}
+		}
+		if len(auto) == 0 {
+			return r
+		}
+		dischargeAll(auto, opt)
+		dropped := false
+		for _, o := range auto {
+			if o.Verdict != "unsat" {
+				// ID: <func>/<kind>/<candidate id>#n
+				id := o.ID[strings.Index(o.ID, "/"+o.Kind+"/")+len(o.Kind)+2:]
+				id = id[:strings.LastIndex(id, "#")]
+				if !disabled[id] {
+					disabled[id] = true
+					dropped = true
+				}
+			}
+		}
+		if !dropped {
+			var ds []string
+			for d := range disabled {
+				ds = append(ds, d)
+			}
+			sort.Strings(ds)
+			r.DroppedAuto = ds
+			return r
+		}
+	}
+	r := L.verifyFuncAuto(fn, spec, disabled)
+	return r
+}
+
+func (L *Loader) verifyFuncAuto(fn *ssa.Function, spec *FuncSpec, disabled map[string]bool) (res *FuncResult) {
 	L.curTop = fn
 	e := newExec(L, fn, spec)
+	e.disabledAuto = disabled
 	res = &FuncResult{Key: L.funcKey(fn), Short: L.funcKeyShort(fn), Spec: spec}
 	defer func() {
 		if r := recover(); r != nil {
@@ -118,7 +166,12 @@ func (L *Loader) verifyFunc(fn *ssa.Function, spec *FuncSpec) (res *FuncResult) 
 	}
 	e.entry = st.clone()
 	e.collectInputs(fn, args, binds)
-	e.runBody(fn, args, binds, st, "true", 0, "")
+	if spec != nil && spec.NoEscape {
+		e.recoverFrame(fn)
+	}
+	if spec == nil || !spec.NoEscape || len(spec.Checks) > 0 || len(spec.Ensures) > 0 {
+		e.runBody(fn, args, binds, st, "true", 0, "")
+	}
 	res.Obls = e.obls
 	for _, o := range res.Obls {
 		o.Script = e.lines
@@ -251,8 +304,15 @@ func (e *Exec) frameCheck(fr *Frame, env *SpecEnv, pos string) {
 		e.nf++
 		r := sym(fmt.Sprintf("q_r!%d", e.nf))
 		var ne []string
+		anyRef := false
 		for _, a := range allowed[k] {
+			if a == "*" {
+				anyRef = true
+			}
 			ne = append(ne, mkNot(mkEq(r, a)))
+		}
+		if anyRef {
+			continue
 		}
 		idxSort, _ := splitArrSort(srt)
 		guard := mkAnd(ne...)
@@ -267,6 +327,9 @@ func (e *Exec) frameCheck(fr *Frame, env *SpecEnv, pos string) {
 // locOf: heap keys and object ref denoted by a modifies clause.
 func (env *SpecEnv) locOf(x *SExpr) (keys []string, ref string, err error) {
 	e := env.e
+	if T, ok := env.typeClause(x); ok {
+		return e.keysOfType(T, false), "*", nil
+	}
 	switch x.Op {
 	case "sel":
 		if _, ok := e.L.specs.Ghosts[x.Tok]; ok {
@@ -391,3 +454,83 @@ func (e *Exec) collectInputs(fn *ssa.Function, args []Val, binds []Val) {
 }
 
 const replayBytes = 48
+
+// recoverFrame: the structural recover-frame rule (DESIGN §3.5). fn is no-escape when the
+// first thing it does is to register a deferred closure R whose first call is recover(); only
+// instructions that cannot panic may precede the registration. R itself must be under a
+// no-panic contract (checked here: a contract with the safety kinds exists for R).
+func (e *Exec) recoverFrame(fn *ssa.Function) {
+	ok := false
+	why := "no deferred recover closure is registered in the entry block"
+	var R *ssa.Function
+	pos := e.posOf(fn.Pos())
+scan:
+	for _, in := range fn.Blocks[0].Instrs {
+		switch x := in.(type) {
+		case *ssa.Alloc, *ssa.MakeClosure, *ssa.DebugRef:
+		case *ssa.Store:
+			if _, isAlloc := x.Addr.(*ssa.Alloc); !isAlloc {
+				why = "an instruction that may panic precedes the registration of the recover closure: " + in.String()
+				break scan
+			}
+		case *ssa.UnOp:
+			switch x.X.(type) {
+			case *ssa.FreeVar, *ssa.Alloc:
+			default:
+				why = "an instruction that may panic precedes the registration of the recover closure: " + in.String()
+				break scan
+			}
+		case *ssa.Defer:
+			if mc, isClo := x.Call.Value.(*ssa.MakeClosure); isClo {
+				R = mc.Fn.(*ssa.Function)
+			} else if f, isFn := x.Call.Value.(*ssa.Function); isFn {
+				R = f
+			}
+			if R == nil || !callsRecoverFirst(R) {
+				why = "the first deferred call does not call recover() before anything else"
+				break scan
+			}
+			ok = true
+			break scan
+		default:
+			why = "an instruction that may panic precedes the registration of the recover closure: " + in.String()
+			break scan
+		}
+	}
+	goal := "false"
+	if ok {
+		goal = "true"
+		why = "first defer recovers"
+	}
+	e.oblige("recover-frame", "first-defer-recovers", "true", goal, pos, why)
+	if ok {
+		sp := e.L.specFor(R)
+		g2 := "false"
+		d2 := "the recover closure " + e.L.funcKeyShort(R) + " has no no-panic contract"
+		if sp != nil && !sp.Assumed && sp.Checks["bounds"] && sp.Checks["nil"] && sp.Checks["assert"] && sp.Checks["panic"] {
+			g2 = "true"
+			d2 = "the recover closure is under a no-panic contract"
+		}
+		e.oblige("recover-frame", "recover-closure-nopanic", "true", g2, pos, d2)
+	}
+}
+
+func callsRecoverFirst(R *ssa.Function) bool {
+	if len(R.Blocks) == 0 {
+		return false
+	}
+	for _, in := range R.Blocks[0].Instrs {
+		if c, ok := in.(*ssa.Call); ok {
+			if b, isB := c.Call.Value.(*ssa.Builtin); isB && b.Name() == "recover" {
+				return true
+			}
+			return false
+		}
+		switch in.(type) {
+		case *ssa.Alloc, *ssa.DebugRef, *ssa.UnOp, *ssa.Store, *ssa.MakeClosure:
+		default:
+			return false
+		}
+	}
+	return false
+}
